@@ -76,6 +76,10 @@ func AnalyzeMetrics15sShortcut(script *logql_parser.LogQLScript) bool {
 	if duration.Seconds() < 15 {
 		return false
 	}
+	// metrics_15s holds 15 s pre-aggregates: only windows made of whole pre-aggregates can be answered from it
+	if duration.Nanoseconds()%(15*time.Second).Nanoseconds() != 0 {
+		return false
+	}
 	if lraOrUnwrap.StrSel.Pipelines != nil &&
 		lraOrUnwrap.StrSel.Pipelines[len(lraOrUnwrap.StrSel.Pipelines)-1].Unwrap != nil {
 		return false
